@@ -145,13 +145,36 @@ class Collector:
                             stmt=stmt, definite=True)
         return self.unresolved(rule, construct, loc, what, "no statement of a recognised form found", stmt=stmt)
 
-    def text_group(self, rule, construct, d, items, fixed=(), body=None):
+    def text_group(self, rule, construct, d, items, fixed=(), body=None, ordered=()):
         """items: [(what, accepted form(s), stmt key)].  All forms are matched against the statements
-        of `d` under one consistent renaming of local names (sa/match.find_group)."""
+        of `d` under one consistent renaming of local names (sa/match.find_group).
+
+        ordered: [(key_a, key_b, why)] -- when both statements are found exactly, sit in the same block and
+        b writes a name that a reads, a must come first; the reverse order is a definite violation (the two
+        statements are the ones the rule is about, and exchanging them changes what a reads)."""
         from . import match
         stmts = body if body is not None else d.node.body
         res = match.find_group(stmts, [it[1] for it in items], fixed)
         out = []
+        found = {key: node for (what, _, key), (v, node, diffs) in zip(items, res) if v == match.SAME}
+        for ka, kb, why in ordered:
+            na, nb = found.get(ka), found.get(kb)
+            if na is None or nb is None:
+                continue
+            blk = next((getattr(x, f) for x in ast.walk(ast.Module(body=list(stmts), type_ignores=[])) for f in ("body", "orelse", "finalbody")
+                        if isinstance(getattr(x, f, None), list) and any(y is na for y in getattr(x, f)) and any(y is nb for y in getattr(x, f))), None)
+            if blk is None:
+                continue
+            ia, ib = next(i for i, y in enumerate(blk) if y is na), next(i for i, y in enumerate(blk) if y is nb)
+            wb = {n.id for n in ast.walk(nb) if isinstance(n, ast.Name) and isinstance(n.ctx, ast.Store)} | \
+                 {n.target.id for n in ast.walk(nb) if isinstance(n, ast.AugAssign) and isinstance(n.target, ast.Name)}
+            ra = {n.id for n in ast.walk(na) if isinstance(n, ast.Name) and isinstance(n.ctx, ast.Load)}
+            if ia > ib and (wb & ra):
+                self.add(rule, construct, d.loc(na), why, VIOLATION,
+                         f"`{norm_src(nb)[:60]}` comes before `{norm_src(na)[:60]}` and changes `{sorted(wb & ra)[0]}`, which the latter reads: {why}",
+                         stmt=f"order:{ka}<{kb}", definite=True)
+            else:
+                self.ok(rule, construct, d.loc(na), why, f"`{norm_src(na)[:40]}` precedes `{norm_src(nb)[:40]}`", stmt=f"order:{ka}<{kb}")
         for (what, _, key), (v, node, diffs) in zip(items, res):
             loc = d.loc(node) if node is not None else d.loc()
             if v == match.SAME:
